@@ -27,6 +27,7 @@ def worker_init():
     from experimaestro import experiment
     from experimaestro.scheduler.workspace import RunMode
     xobj.cprint = lambda *a, **k: None
+    xobj.inspect = _CheapInspect()
     d = tempfile.mkdtemp(prefix="vg", dir="/dev/shm" if os.path.isdir("/dev/shm") else None)
     _STATE["dir"] = d
     xp = experiment(d, "g", run_mode=RunMode.DRY_RUN, port=-1)
@@ -34,6 +35,19 @@ def worker_init():
     _STATE["xp"] = xp
     import atexit
     atexit.register(lambda: shutil.rmtree(d, ignore_errors=True))
+
+
+class _CheapInspect:
+    """Stand-in for the `inspect` module inside core/objects.py: inspect.stack() reads the source of every frame of
+    the stack (40% of the cost of building a configuration); only frame [1][0] is used, to fill an error-message string."""
+
+    def __getattr__(self, k):
+        import inspect
+        return getattr(inspect, k)
+
+    def stack(self):
+        f = sys._getframe(1)
+        return [(f,), (f.f_back,)]
 
 
 def ensure_init():
